@@ -234,6 +234,7 @@ type history struct {
 	maxZipDrawn int
 	maxZip      int
 	exactFit    bool
+	manyZips    bool
 	wholeOff    int64
 	page        int
 	plan        suffixPlan
@@ -257,8 +258,18 @@ func (h *history) describe() string {
 func genHistory(t *rapid.T) *history {
 	h := &history{}
 	first := genSpec(t, "f0")
+	// one history in ten: a file spread over more than ten zips (the per-zip rows of the meta index
+	// are keyed by a decimal part number, so their key order stops being their numeric order at 10)
+	h.manyZips = rapid.IntRange(0, 9).Draw(t, "manyZips") == 0
+	if h.manyZips {
+		first.Size = rapid.IntRange(3<<20, 4500<<10).Draw(t, "manyZipsSize")
+		first.Period = 0
+	}
 	h.specs = []fileSpec{first}
 	h.second = rapid.SampledFrom([]string{"none", "none", "same-content-other-name", "same-content-other-name", "different"}).Draw(t, "secondFile")
+	if h.manyZips {
+		h.second = "none"
+	}
 	switch h.second {
 	case "same-content-other-name":
 		s := first
@@ -294,6 +305,8 @@ func genHistory(t *rapid.T) *history {
 	h.u = newUniverse(files)
 	h.seq, h.orderKinds = genDeliveries(t, h.u)
 	switch zc := rapid.IntRange(0, 7).Draw(t, "zipSizeClass"); {
+	case h.manyZips:
+		h.maxZipDrawn = rapid.IntRange(280<<10, 360<<10).Draw(t, "manyZipsMaxZip")
 	case zc <= 1:
 		h.maxZipDrawn = 0
 	case zc == 2 && len(files[0].FitSizes) > 3:
@@ -829,10 +842,19 @@ func runHistory(t *rapid.T) {
 	K := len(tr.muts)
 	evid.R.Label(fmt.Sprintf("zips-per-pack/%d", tr.zips))
 	var ks []int
-	if evid.Thorough() {
+	if tr.zips > 10 {
+		evid.R.Label("zips-per-pack/more-than-10")
+	}
+	exhaustive := evid.Thorough() && K <= 80
+	if exhaustive {
 		for k := 1; k <= K+1; k++ {
 			ks = append(ks, k)
 		}
+	} else if evid.Thorough() {
+		// a very long pack (a file over many zips): a drawn sample of its crash points
+		evid.R.Label("crash-points/sampled(pack-with-more-than-80-writes)")
+		ks = rapid.SliceOfNDistinct(rapid.IntRange(1, K+1), 16, 16, rapid.ID[int]).Draw(t, "crashPoints")
+		sort.Ints(ks)
 	} else {
 		// a handful: three distinct kinds, one drawn k of each
 		byKind := map[string][]int{}
@@ -955,8 +977,8 @@ func runHistory(t *rapid.T) {
 			mw.release()
 		}
 	}
-	if evid.Thorough() {
-		evid.R.Exhaustive("every crash point (each mutating lower-layer call of the pack-triggering upload, and no crash) x 3 restart modes of each generated history")
+	if exhaustive {
+		evid.R.Exhaustive("every crash point (each mutating lower-layer call of the pack-triggering upload, and no crash) x 3 restart modes of each generated history whose pack makes at most 80 writes; 16 drawn crash points for longer packs")
 	}
 }
 
